@@ -224,7 +224,9 @@ func (s *storeRun) fail(sig, what, impl, want string) {
 		Note: "C18: " + what})
 }
 
-func (s *storeRun) op(format string, a ...interface{}) { s.trace = append(s.trace, fmt.Sprintf(format, a...)) }
+func (s *storeRun) op(format string, a ...interface{}) {
+	s.trace = append(s.trace, fmt.Sprintf(format, a...))
+}
 
 // audit reads everything back through the storage layer and compares it with the oracle.
 func (s *storeRun) audit(why string) {
@@ -491,7 +493,7 @@ func runStore(c *ctx) error {
 				}
 			case 6, 7, 8: // create device (storage)
 				d := model.Device{DeviceEUI: pick(), AppEUI: pick(), DevAddr: protocol.DevAddrFromUint32(r.Uint32()), AppKey: key(), AppSKey: key(), NwkSKey: key(),
-					State: []model.DeviceState{model.OverTheAirDevice, model.PersonalizedDevice, model.DisabledDevice}[r.Intn(3)],
+					State:  []model.DeviceState{model.OverTheAirDevice, model.PersonalizedDevice, model.DisabledDevice}[r.Intn(3)],
 					FCntUp: uint16(r.Intn(65536)), FCntDn: uint16(r.Intn(65536)), RelaxedCounter: r.Intn(2) == 0, KeyWarning: r.Intn(2) == 0, Tag: tags[r.Intn(len(tags))]}
 				if r.Intn(2) == 0 {
 					d.DevAddr = protocol.DevAddrFromUint32(addrs[r.Intn(len(addrs))])
